@@ -1,7 +1,7 @@
 (* C14 — Idle and establishment timeouts fire when, and only when, they should.
    The idle timer is proved on the timed model of pipe.rs (exact virtual clock: a timer fires at
    its deadline; a late real timer only delays the close). *)
-From Coq Require Import List NArith Bool.
+From Coq Require Import List NArith Bool Lia.
 From TT Require Import Lib.BytesL Model.Pipe Model.Listener Generated.PipeFacts Generated.TimeoutFacts Proofs.PipeProofs.
 Import ListNotations.
 Open Scope N_scope.
@@ -135,6 +135,44 @@ Proof.
   intros H. inversion H; subst. split; [reflexivity|]. apply N.ltb_lt. exact E.
 Qed.
 Print Assumptions completed_handshake_took_less_than_its_timeout.
+
+(* the same at the listener, where the deadline is an instant that the clock has to be able to represent: a timeout beyond the
+   clock's reach is replaced by the far future (which is within it), never by a longer limit *)
+Theorem completed_listener_handshake_took_less_than_its_timeout :
+  forall room far T a b t, far <= room ->
+    listener_handshake TLS_HANDSHAKE_HAS_ONE_DEADLINE TLS_HANDSHAKE_DEADLINE_SATURATES room far T a b = Some t -> t = a + b /\ t < T.
+Proof.
+  intros room far T a b t Hfar. unfold listener_handshake, handshake_limit.
+  change TLS_HANDSHAKE_DEADLINE_SATURATES with true.
+  destruct (T <=? room) eqn:E.
+  - apply completed_handshake_took_less_than_its_timeout.
+  - intros H. apply completed_handshake_took_less_than_its_timeout in H. destruct H as [H1 H2].
+    split; [exact H1|]. apply N.leb_gt in E. lia.
+Qed.
+Print Assumptions completed_listener_handshake_took_less_than_its_timeout.
+
+(* ... and only when it should: a handshake that takes less than its timeout (and less than the far future) is completed, however
+   large the configured timeout is - tls_handshake_timeout_secs = i64::MAX included *)
+Theorem prompt_handshake_completes_under_any_timeout :
+  forall room far T a b, a + b < T -> a + b < far ->
+    listener_handshake TLS_HANDSHAKE_HAS_ONE_DEADLINE TLS_HANDSHAKE_DEADLINE_SATURATES room far T a b = Some (a + b).
+Proof.
+  intros room far T a b HT Hfar. unfold listener_handshake, handshake_limit.
+  change TLS_HANDSHAKE_DEADLINE_SATURATES with true. change TLS_HANDSHAKE_HAS_ONE_DEADLINE with true.
+  assert (P : forall L, a + b < L -> handshake true L a b = Some (a + b)).
+  { intros L HL. unfold handshake.
+    replace (a <? L) with true by (symmetry; apply N.ltb_lt; lia).
+    replace (a + b <? L) with true by (symmetry; apply N.ltb_lt; exact HL). reflexivity. }
+  destruct (T <=? room); apply P; assumption.
+Qed.
+Print Assumptions prompt_handshake_completes_under_any_timeout.
+
+(* as found: with the plain addition a client that was quick in every respect was dropped under the largest configurable timeout *)
+Example ex_unrepresentable_deadline :
+  listener_handshake true false CLOCK_ROOM_MS FAR_FUTURE_MS (9223372036854775807 * 1000) 2 3 = None
+  /\ listener_handshake true true CLOCK_ROOM_MS FAR_FUTURE_MS (9223372036854775807 * 1000) 2 3 = Some 5
+  /\ FAR_FUTURE_MS <= CLOCK_ROOM_MS.
+Proof. split; [|split]; [reflexivity|reflexivity|discriminate]. Qed.
 
 (* as found (a timeout per stage): a ClientHello after 600 ms and the rest 700 ms later was accepted after 1300 ms under a
    timeout of 1000 ms *)
